@@ -1,4 +1,4 @@
-//@kunit props=C18,C04 append=crates/axmos-db/src/storage/tuple.rs
+//@kunit props=C18,C04,C03 append=crates/axmos-db/src/storage/tuple.rs
 // Unit `tuplelayout`: the arithmetic the row codec rests on -- NULL-bitmap addressing, alignment,
 // header encoding of creator/deleter ids.  Real code, full-domain symbolic inputs, loop-free.
 //@trusted transaction ids are below 2^63 (TupleHeader stores the deleter id as i64 with -1 for "none"; ids are issued from 0 upwards by one)
